@@ -55,7 +55,7 @@ CHECKS.update({
    note="Trusted: sim environment; the instance bus is the real libp2p bus wrapped only for observation.",
    tech="explicit-state DFS by replay over the real implementation with frame-condition (non-interference) oracle at every step"),
  "C05": dict(cat="model_checking", ref="5/C05",
-   text="All histories up to the depth bound of local writes, remote writes, syncs and snapshot saves on a replica (three store types); for every history EVERY prefix of the replica's ordered persistence-effect log (block writes, cache puts, keystore puts) is turned into a crash image from which the database is reopened and loaded in isolation; recovered entries must include every acknowledged entry, only written entries, be closed under ancestry and show the reference state; identity unchanged and writable. Clean close/reopen cycles run on real leveldb directories.",
+   text="All histories up to the depth bound of local writes, remote writes, syncs and snapshot saves on a replica (three store types); for every history EVERY prefix of the replica's ordered persistence-effect log (block writes, cache puts, keystore puts) is turned into a crash image from which the database is reopened and loaded in isolation; recovered entries must include every acknowledged entry, only written entries, be closed under ancestry and show the reference state; identity unchanged and writable. The same crash-prefix enumeration is run over every interleaving of two concurrent writers at the write path's schedule points. Clean close/reopen cycles run on real leveldb directories.",
    note="Trusted: each effect is atomic and durable on return (property's assumption); effects are observed at the simulated cache/keystore/blockstore seams. On-disk part covers clean shutdowns only.",
    tech="exhaustive crash-point enumeration (every prefix of the persistence-effect log of every explored history) with recovery on the real implementation"),
  "C18": dict(cat="exploration", ref="5/C18",
